@@ -45,11 +45,18 @@ def plan(tier):
     p.append((S.T1("net0", O=O5).variant("/serial"), 1 if q else 2, 0.5))
     p.append((S.G1(O=S.PF), 0 if q else 1, 3))
     p.append((S.G2(O=S.PF), 0 if q else 1, 3))
+    # COMPLETE enumeration (no deviation bound): every duration / outcome / tie-order sequence of small graphs
+    p.append((S.T1(shared=S.VM1_CHAIN[:2]).variant("/shared=install+customize,ALL-SCHEDULES"), 99, 0.5))
+    p.append((S.T1("net1 net2 net3", shared=S.VM1_CHAIN[:2]).variant("/shared=install+customize,ALL-SCHEDULES"), 99, 0.5))
+    p.append((S.T1(shared=S.VM1_CHAIN[:1]).variant("/shared=install,ALL-SCHEDULES"), 99, 1))
+    p.append((S.T2(shared=S.VM1_CHAIN[:2]).variant("/shared=install+customize,ALL-SCHEDULES"), 99, 1))
+    if not q:
+        p.append((S.T2(shared=S.VM1_CHAIN[:1]).variant("/shared=install,ALL-SCHEDULES"), 99, 4))
     return p
 
 
 def run(tier, seed):
-    return checkbase.run_e1("C02", tier, seed, TECH, (lambda: plan(tier)), monitors.c02, 240, 1800,
+    return checkbase.run_e1("C02", tier, seed, TECH, (lambda: plan(tier)), monitors.c02, 420, 2400,
                             "executions = complete runs of the real traversal, one per choice sequence (durations, outcomes incl. result-never-reported, "
                             "tie order) with at most k non-default choices, plus persistent-failure and retry settings; distinct = distinct (scenario, "
                             "(worker,test,status) sequence); horizon = 6000 loop steps / 3000 virtual seconds (a normal run needs < 300 steps)",
